@@ -126,6 +126,8 @@ impl UntypedEntry {
                 swap_any(&mut *self.value.get(), value.0.value.get_mut());
                 d.reload.increment();
                 d.reload_global.store(true, Ordering::Release);
+                #[cfg(assets_manager_verif)]
+                crate::verif::emit("Write", || format!("{},\"rid\":{}", crate::verif::key(&self.id, self.type_id), d.reload.0.load(Ordering::Relaxed)));
             }
             return;
         }
